@@ -4,7 +4,11 @@ See DESIGN.md §6 C07 and §7-H.
 
 Op line (one ALM solve against a scripted inner solver):
   run  tol dtol puf ip ipf itol tuf θ M maxpen minpen  max_iter single
-       m split lb[m] ub[m] f0 g0[m]  hasΣ Σ  x y  N { status ε errz dy dx iters extra oot }×N
+       m split lb[m] ub[m] f0 g0[m]  hasΣ Σ  x y  prestop  N { status ε errz dy dx iters extra oot stop }×N
+  (`stop`: the scripted inner solver calls alm.stop() — ALMSolver's own stop(), which also forwards to the
+  inner solver — from inside that inner solve and still returns the scripted status, i.e. the inner outcome
+  does not report the request; `prestop`: alm.stop() is called before the solve starts.  The flag is never
+  cleared.)
 Output line (harness = real alpaqa::ALMSolver<ScriptedInner>, driver = Lean model at Float):
   status outer_iters inner_failures ε δ ‖Σ‖/√m  Σiters Σextra count  x y  hasΣ [Σ]  ncalls
        { Σ y x errbuf tol always_overwrite outer_iter check }×ncalls
@@ -43,19 +47,20 @@ def default_params():
                 max_multiplier=16.0, max_penalty=2.0 ** 8, min_penalty=2.0 ** -10)
 
 
-def entry(status, eps, errz, dy=None, dx=0.0, iters=1, extra=0, oot=False):
+def entry(status, eps, errz, dy=None, dx=0.0, iters=1, extra=0, oot=False, stop=False):
     dy = [0.0] * len(errz) if dy is None else dy
     return dict(status=status, eps=eps, errz=list(errz), dy=list(dy), dx=dx, iters=iters,
-                extra=extra, oot=oot)
+                extra=extra, oot=oot, stop=stop)
 
 
-def op_line(P, max_iter, single, m, split, lb, ub, f0, g0, sig, x, y, script):
+def op_line(P, max_iter, single, m, split, lb, ub, f0, g0, sig, x, y, script, prestop=False):
     ps = ' '.join(f2h(P[k]) for k in PARAM_NAMES)
     s = (f'run {ps} {max_iter} {int(single)} {m} {split} {vec2p(lb)} {vec2p(ub)} {f2h(f0)} '
-         f'{vec2p(g0)} {0 if sig is None else 1} {vec2p(sig or [])} {vec2p(x)} {vec2p(y)} {len(script)}')
+         f'{vec2p(g0)} {0 if sig is None else 1} {vec2p(sig or [])} {vec2p(x)} {vec2p(y)} {int(prestop)} '
+         f'{len(script)}')
     for e in script:
         s += (f' {SI[e["status"]]} {f2h(e["eps"])} {vec2p(e["errz"])} {vec2p(e["dy"])} {f2h(e["dx"])} '
-              f'{e["iters"]} {e["extra"]} {int(e["oot"])}')
+              f'{e["iters"]} {e["extra"]} {int(e["oot"])} {int(e.get("stop", False))}')
     return s
 
 
@@ -222,9 +227,11 @@ def gen_random(rng, exact=True, max_len=12):
             st = 'MaxIter'              # keep most long scripts running
         script.append(entry(st, eps, ez, dy, dx=rng.randint(-2, 2) / 2.0, iters=rng.randint(0, 50),
                             extra=rng.randint(0, 9),
-                            oot=rng.random() < (0.002 if long_run else 0.04)))
+                            oot=rng.random() < (0.002 if long_run else 0.04),
+                            stop=rng.random() < (0.002 if long_run else 0.06)))
         prev = ez
-    return op_line(P, max_iter, single, m, split, lb, ub, f0, g0, sig, x, y, script)
+    return op_line(P, max_iter, single, m, split, lb, ub, f0, g0, sig, x, y, script,
+                   prestop=rng.random() < 0.03)
 
 
 def exhaustive(lengths, ms=(0, 1, 2), sample=None, rng=None):
@@ -262,6 +269,41 @@ def exhaustive(lengths, ms=(0, 1, 2), sample=None, rng=None):
                 sig = [0.5, 2.0][:m] if SI[h[-1][0]] % 2 == 0 else None
                 ops.append(op_line(P, L + (SI[h[0][0]] % 2), single, m, 0, lb, ub, 3.0,
                                    [1.0, -2.0][:m], sig, [0.5], [20.0, -20.0][:m], script))
+    return ops
+
+
+STOP_STATUSES = ['Converged', 'MaxIter', 'NoProgress']
+
+
+def stop_sweeps(lengths=(1, 2, 3, 4), ms=(0, 1, 2)):
+    """alm.stop() during inner solve k (every k < L; and before the solve: `prestop`) of every history of
+    length L over inner statuses that do *not* report the request (Converged / MaxIter / NoProgress), none of
+    which ends ALM by itself (large slack error) — except, in the second variant, inner solve k, whose result
+    passes ALM's own termination test (the natural `Converged` may win there).  max_iter = L + 1: without the
+    request every run would go through all L scripted solves and one more."""
+    ops = []
+    P = default_params()
+    δ, tol = P['dual_tolerance'], P['tolerance']
+    for m in ms:
+        lb = [-1.0, -INF][:m]
+        ub = [1.0, 2.0][:m]
+        for L in lengths:
+            for h in itertools.product(STOP_STATUSES, repeat=L):
+                for k in list(range(L)) + [-1]:
+                    for conv_at_k in (False, True):
+                        if conv_at_k and (k < 0 or h[k] != 'Converged'):
+                            continue
+                        script = []
+                        for j, st in enumerate(h):
+                            if conv_at_k and j == k:
+                                ez, eps = [δ * (-1) ** i for i in range(m)], tol
+                            else:
+                                ez, eps = [2.0 ** -j * (1 + i) for i in range(m)], (tol if m == 0 else 2 * tol)
+                            script.append(entry(st, eps, ez, [0.5 * (-1) ** (i + j) for i in range(m)], dx=0.5,
+                                                iters=j + 1, extra=1, stop=(j == k)))
+                        sig = [0.5, 2.0][:m] if (L + k) % 2 == 0 else None
+                        ops.append(op_line(P, L + 1, (L + len(h[0])) % 2 == 1, m, 0, lb, ub, 3.0, [1.0, -2.0][:m],
+                                           sig, [0.5], [1.0, -1.0][:m], script, prestop=(k < 0)))
     return ops
 
 
@@ -357,7 +399,7 @@ def gen_stale_error_history(rng):
 
 def gen_ops(rng, n):
     thorough = n >= 20000
-    ops = repaired_points(rng) + excluded_points(rng)
+    ops = repaired_points(rng) + excluded_points(rng) + stop_sweeps()
     if thorough:
         ops += exhaustive((1, 2, 3, 4))
     else:
@@ -403,12 +445,13 @@ def parse_op(op):
     m = t.nat(); split = t.nat(); lb = t.vec(); ub = t.vec(); f0 = t.flt(); g0 = t.vec()
     has = t.nat() == 1; sig = t.vec()
     x = t.vec(); y = t.vec()
+    prestop = t.nat() == 1
     script = []
     for _ in range(t.nat()):
         script.append(dict(status=STATUSES[t.nat()], eps=t.flt(), errz=t.vec(), dy=t.vec(), dx=t.flt(),
-                           iters=t.nat(), extra=t.nat(), oot=t.nat() == 1))
+                           iters=t.nat(), extra=t.nat(), oot=t.nat() == 1, stop=t.nat() == 1))
     return dict(P=P, max_iter=max_iter, single=single, m=m, split=split, lb=lb, ub=ub, f0=f0, g0=g0,
-                sig=sig if has else None, x=x, y=y, script=script)
+                sig=sig if has else None, x=x, y=y, script=script, prestop=prestop)
 
 
 def parse_out(out):
@@ -453,6 +496,8 @@ def monitor_(op, out, st):
     out = out.strip()
     if out in ('exception', 'bad-op', 'parse-error'):
         return f'unexpected {out}'
+    if out == 'stop-not-forwarded':
+        return 'ALMSolver::stop() did not forward the request to the inner solver (or forwarded one never made)'
     if out == 'logic_error':
         return 'ALM threw logic_error("loop error"): the loop ran past max_iter without returning'
     I = parse_op(op)
@@ -470,7 +515,11 @@ def monitor_(op, out, st):
     def ent(k):
         if k < len(script):
             return script[k]
-        return dict(status='Converged', eps=0.0, errz=[0.0] * m, iters=1, extra=0, oot=False)
+        return dict(status='Converged', eps=0.0, errz=[0.0] * m, iters=1, extra=0, oot=False, stop=False)
+
+    def flag_after(k):
+        """ALM's stop flag as set when inner solve k has returned (never cleared)."""
+        return I['prestop'] or any(ent(j)['stop'] for j in range(k + 1))
 
     # ---- accounting ----------------------------------------------------------------------
     if n > I['max_iter']:
@@ -492,14 +541,35 @@ def monitor_(op, out, st):
         if ent(k)['status'] == 'Interrupted':
             return f'inner solve {k} was Interrupted but {n - 1 - k} more inner solve(s) followed'
     last = ent(n - 1)
-    if (R['status'] == 'Interrupted') != (last['status'] == 'Interrupted'):
-        return f'status {R["status"]} but last inner status {last["status"]}'
     # ---- Converged exactly when … ----------------------------------------------------------
     e_last = last['errz'] if m > 0 else []
     want = (last['status'] == 'Converged' and last['eps'] <= tol and norm_inf(e_last) <= dtol
             and not any(a != a for a in e_last))
     if any(a != a for a in e_last):
         want = None     # NaN slack error: max-reduction with NaN is implementation-defined
+    # ---- stop request (C19 at the ALM level; m = 0: a single inner solve, nothing left to stop) ---------
+    if m > 0:
+        for k in range(n - 1):
+            if flag_after(k):
+                where = 'before the solve' if I['prestop'] else \
+                    f'during inner solve {min(j for j in range(k + 1) if ent(j)["stop"])}'
+                return (f'alm.stop() was called {where}; inner solve {k} returned {ent(k)["status"]} with the '
+                        f'flag set, but ALM started {n - 1 - k} more inner solve(s)')
+        seen = flag_after(n - 1)
+        count('stop flag ' + (f'visible after the last inner solve ({last["status"]}) → {R["status"]}' if seen
+                              else 'never set'))
+        if last['status'] == 'Interrupted':
+            want_int = True
+        elif not seen:
+            want_int = False
+        else:
+            want_int = None if want is None else (not want)   # natural Converged of this iteration wins
+    else:
+        want_int = last['status'] == 'Interrupted'
+    if want_int is not None and (R['status'] == 'Interrupted') != want_int:
+        return (f'status {R["status"]} but last inner status {last["status"]}, stop flag '
+                f'{"visible" if m > 0 and flag_after(n - 1) else "not visible / not consulted"} after it'
+                + (', ALM termination test ' + ('passed' if want else 'failed') if want is not None else ''))
     if want is not None and (R['status'] == 'Converged') != want:
         msg = (f'status {R["status"]} but last inner solve: {last["status"]}, ε = {last["eps"]!r} '
                f'(tolerance {tol!r}), ‖e‖∞ = {norm_inf(e_last)!r} (dual tolerance {dtol!r})')
@@ -673,12 +743,20 @@ if __name__ == '__main__':
             'inner solver) — tied by the scripted-inner correspondence on the explored histories only',
             'the clock is an oracle bit per inner solve (`time_elapsed > max_time`); opts.max_time '
             '(time_remaining) and elapsed_time are not modelled',
+            'ALM\'s own stop flag (AtomicStopSignal stop_signal) is an oracle bit per inner solve (what '
+            'stop_requested() reads right after it); gen_c07 pins that stop() is `stop_signal.stop(); '
+            'inner_solver.stop();` and that the flag is read exactly once, after the inner call; the scripted '
+            'runs set it from inside inner solve k (every k) or before the solve',
             'eval_proj_multipliers = BoxConstrProblem::eval_proj_multipliers_box (model + theorems: C15)',
             'real-number semantics: no NaN in the theorems (`NoNaN`), IEEE rounding not modelled',
         ],
         assumptions=['the inner solver is an arbitrary function of what it is called with; the problem '
                      'passes p.check(); Σ, y, err_z have m entries'],
-        rule='9 repaired former excluded points + 6 remaining excluded points of ValidParams (fixed runs); exhaustive histories of length ≤ 3 (quick; ≤ 4 '
+        rule='9 repaired former excluded points + 6 remaining excluded points of ValidParams (fixed runs); '
+             'stop sweeps: alm.stop() from inside inner solve k (every k < L, and before the solve) of every history '
+             'of length L ≤ 4 over inner statuses {Converged, MaxIter, NoProgress} (the inner outcome does not report '
+             'the request), m ∈ {0,1,2}, with and without ALM\'s own termination test passing in iteration k; '
+             'random stop bits (6% per inner solve, 3% before the solve) in the seeded histories; exhaustive histories of length ≤ 3 (quick; ≤ 4 '
              'thorough, quick samples 2500 of length 4 and 500 of length 6 per m) over {Converged, MaxIter, NotFinite, NoProgress, '
              'Interrupted, MaxTime} × 3 error patterns (ties on dual tolerance / θ-threshold / tolerance) × '
              'm ∈ {0,1,2}, (non-uniform) user Σ on/off, single_penalty_factor on/off, max_iter ∈ {L, L+1}; seeded random '
